@@ -109,9 +109,48 @@ func init() {
 			q := posOfCall(x, fd.Body, func(c *ast.CallExpr) bool { return calleeName(c) == "queryWithConn" })
 			x.DefOptBool("dumpBeginsReadTx", b != 0 && q != 0 && b < q, q != 0)
 			x.DefOptBool("dumpEndsTx", hasDeferCall(x, fd.Body, isEnd), true)
+			// every use of the receiver inside Dump, in source order: "callee/last argument" for a
+			// call on db or one of its fields, "passes-db:callee" for a call handed db itself.
+			// All reads must go through the ONE connection the transaction was begun on.
+			var uses []string
+			ast.Inspect(fd.Body, func(n ast.Node) bool {
+				c, ok := n.(*ast.CallExpr)
+				if !ok {
+					return true
+				}
+				callee := x.Src(c.Fun)
+				if strings.HasPrefix(callee, "db.") {
+					last := ""
+					if len(c.Args) > 0 {
+						last = x.Src(c.Args[len(c.Args)-1])
+					}
+					uses = append(uses, callee+"/"+last)
+				}
+				for _, a := range c.Args {
+					if id, ok := a.(*ast.Ident); ok && id.Name == "db" {
+						uses = append(uses, "passes-db:"+callee)
+					}
+				}
+				return true
+			})
+			x.DefStrings("dumpReceiverUses", uses)
+			// how many if-statements in Dump test a result's Error field for being non-empty
+			nErr := 0
+			ast.Inspect(fd.Body, func(n ast.Node) bool {
+				if is, ok := n.(*ast.IfStmt); ok {
+					c := x.Src(is.Cond)
+					if strings.HasSuffix(c, `.Error != ""`) && strings.Contains(x.Src(is.Body), "return ") {
+						nErr++
+					}
+				}
+				return true
+			})
+			x.DefOptInt("dumpResultErrorChecks", int64(nErr), true)
 		} else {
+			x.DefOptInt("dumpResultErrorChecks", 0, false)
 			x.DefOptBool("dumpBeginsReadTx", false, false)
 			x.DefOptBool("dumpEndsTx", false, false)
+			x.DefStrings("dumpReceiverUses", nil)
 		}
 
 		// ---- store/store.go (*Store).Backup
